@@ -281,6 +281,18 @@ int main() {
       if (!err.empty()) printf("I err=%s\n", err.c_str());
       else { std::string o = "I ok"; for (int k = 0; k < c06invoke::g_cnt; k++) o += " " + std::to_string((long long)c06invoke::g_rec[k]); puts(o.c_str()); }
     }
+    else if (c == 'K') {
+      // K plat abi kind cnt (mode val)*cnt : AArch64 call site, bytes only
+      std::vector<long long> w;
+      { char* q = buf + 1; while (*q) { while (*q == ' ' || *q == '\n' || *q == '\r') q++; if (!*q) break; w.push_back(strtoll(q, &q, 10)); } }
+      if (w.size() < 4 || (long long)w.size() < 4 + 2 * w[3]) { puts("BAD"); fflush(stdout); continue; }
+      std::vector<int> mode; std::vector<int64_t> val;
+      for (long long k = 0; k < w[3]; k++) { mode.push_back(int(w[4 + 2 * k])); val.push_back(int64_t(w[5 + 2 * k])); }
+      std::string hex;
+      std::string err = c06invoke::run_a64(int(w[2]), make_env(2, int(w[0]), int(w[1])), mode, val, hex);
+      if (!err.empty()) printf("K err=%s\n", err.c_str());
+      else printf("K ok bytes=%s\n", hex.c_str());
+    }
     else if (c == 'X') {
       // same integers as S, then " H<hex image>" : additionally executes the emitted code natively (x86-64 host only)
       const char* h = strstr(buf, " H");
